@@ -962,6 +962,35 @@ func (w *ctxWalker) descends(fn *ssa.Function, v ssa.Value, d int, seen map[ctxK
 		case *ssa.FreeVar:
 			return enriched(fn, cell, d+1, seen)
 		}
+		// a member of a record that a library constructor just built (conn := newConn(ctx, …); <-conn.ctx.Done()): what
+		// the constructor stored into that member
+		if fa, ok := x.X.(*ssa.FieldAddr); ok {
+			if ctor, ok := unspill(fa.X).(*ssa.Call); ok {
+				if sc := ir.StaticCallee(ctor); sc != nil && c.P.IsLib(sc) && sc.Blocks != nil {
+					fr, _, _ := ir.FieldOf(fa)
+					var stored ssa.Value
+					ir.EachInstr(sc, func(_ *ssa.BasicBlock, _ int, in ssa.Instruction) {
+						if st, ok := in.(*ssa.Store); ok {
+							if fa2, ok := st.Addr.(*ssa.FieldAddr); ok {
+								if _, isAlloc := fa2.X.(*ssa.Alloc); isAlloc {
+									if fr2, _, _ := ir.FieldOf(fa2); fr2.Name == fr.Name {
+										stored = st.Val
+									}
+								}
+							}
+						}
+					})
+					if stored != nil {
+						// parameters of the constructor map to the arguments of this call
+						if ok, why := enriched(sc, stored, d+1, seen); ok {
+							return true, ""
+						} else if why != "" {
+							return false, why
+						}
+					}
+				}
+			}
+		}
 		return false, "a member or element loaded in " + fname(fn)
 	case *ssa.FreeVar:
 		parent := fn.Parent()
